@@ -202,7 +202,7 @@ def assign_sigmas(draw, spec, unc):
         for _, d, _ in pents:
             d.pop("s", None)
         cpos = []
-        if unc in ("prog", "both"):
+        if unc in ("prog", "both") and covs:  # (a generated program set may have no outcome at all)
             cpos = draw(st.lists(st.sampled_from(list(range(len(covs)))), min_size=1, max_size=2, unique=True))
         for i, c in enumerate(covs):
             if len(c["progs"]) >= 2 and not c.get("imp") and draw(st.booleans()):
@@ -224,7 +224,7 @@ def assign_sigmas(draw, spec, unc):
     if unc == "zero" and not zero_set:
         if ents:
             ents[0][1]["s"] = 0.0
-        elif has_progs:
+        elif has_progs and spec["progs"]["covouts"]:
             spec["progs"]["covouts"][0]["sigma"] = 0.0
         else:
             unc = "none"
